@@ -416,6 +416,156 @@ pub struct TagField {
 }
 specimen!(TagField, |r| TagField { level: *r.pick(&[Level::Trace, Level::Error, Level::Plain]), time: g(r), message: g(r) });
 
+// `#[form(tag)]` on a field (the tag attribute's name is taken from the field's value) in every shape
+// the derive macro treats separately. `TagField` above is the labelled shape with a header field and a
+// slot; tuple structs, structs with a `#[form(body)]` field and structs without body items go through
+// the *ordinal* field table of the generated recogniser, the labelled ones through the labelled one.
+// (Enum variants cannot have a tag field: the derive rejects it. The field's type must implement `Tag`;
+// `String` does not.)
+
+fn level(r: &mut Rng) -> Level {
+    *r.pick(&[Level::Trace, Level::Error, Level::Plain])
+}
+
+#[derive(Form, Debug, PartialEq, Clone)]
+pub struct TagFieldOnly {
+    #[form(tag)]
+    pub level: Level,
+}
+specimen!(TagFieldOnly, |r| TagFieldOnly { level: level(r) });
+
+#[derive(Form, Debug, PartialEq, Clone)]
+pub struct TagFieldLabelled {
+    #[form(tag)]
+    pub level: Level,
+    pub a: i32,
+    pub b: String,
+}
+specimen!(TagFieldLabelled, |r| TagFieldLabelled { level: level(r), a: g(r), b: g(r) });
+
+#[derive(Form, Debug, PartialEq, Clone)]
+pub struct TagFieldLabelledHeaders {
+    #[form(tag)]
+    pub level: Level,
+    #[form(header_body)]
+    pub hb: i32,
+    #[form(header)]
+    pub h: String,
+    #[form(attr)]
+    pub at: bool,
+    pub x: Option<i64>,
+    #[form(name = "renamed")]
+    pub y: Vec<i32>,
+}
+specimen!(TagFieldLabelledHeaders, |r| TagFieldLabelledHeaders { level: level(r), hb: g(r), h: g(r), at: g(r), x: g(r), y: g(r) });
+
+#[derive(Form, Debug, PartialEq, Clone)]
+pub struct TagFieldTuple(#[form(tag, name = "level")] pub Level, pub String, pub i32);
+specimen!(TagFieldTuple, |r| TagFieldTuple(level(r), g(r), g(r)));
+
+#[derive(Form, Debug, PartialEq, Clone)]
+pub struct TagFieldTuple1(#[form(tag, name = "level")] pub Level, pub i32);
+specimen!(TagFieldTuple1, |r| TagFieldTuple1(level(r), g(r)));
+
+#[derive(Form, Debug, PartialEq, Clone)]
+pub struct TagFieldTupleHeaders(
+    #[form(tag, name = "level")] pub Level,
+    #[form(header_body, name = "hb")] pub i32,
+    #[form(header, name = "h")] pub String,
+    #[form(attr, name = "at")] pub bool,
+    pub String,
+    pub Option<i32>,
+);
+specimen!(TagFieldTupleHeaders, |r| TagFieldTupleHeaders(level(r), g(r), g(r), g(r), g(r), g(r)));
+
+#[derive(Form, Debug, PartialEq, Clone)]
+pub struct TagFieldBody {
+    #[form(tag)]
+    pub level: Level,
+    #[form(body)]
+    pub b: Vec<i32>,
+}
+specimen!(TagFieldBody, |r| TagFieldBody { level: level(r), b: g(r) });
+
+#[derive(Form, Debug, PartialEq, Clone)]
+pub struct TagFieldBodyPrim {
+    #[form(tag)]
+    pub level: Level,
+    #[form(body)]
+    pub b: i64,
+}
+specimen!(TagFieldBodyPrim, |r| TagFieldBodyPrim { level: level(r), b: g(r) });
+
+#[derive(Form, Debug, PartialEq, Clone)]
+pub struct TagFieldBodyHeaders {
+    #[form(tag)]
+    pub level: Level,
+    #[form(header)]
+    pub h: i32,
+    #[form(attr)]
+    pub at: String,
+    #[form(body)]
+    pub b: Labelled,
+}
+specimen!(TagFieldBodyHeaders, |r| TagFieldBodyHeaders { level: level(r), h: g(r), at: g(r), b: g(r) });
+
+/// Every field lifted into the header / an attribute: no body items.
+#[derive(Form, Debug, PartialEq, Clone)]
+pub struct TagFieldNoItems {
+    #[form(tag)]
+    pub level: Level,
+    #[form(header)]
+    pub a: i32,
+    #[form(header)]
+    pub b: String,
+}
+specimen!(TagFieldNoItems, |r| TagFieldNoItems { level: level(r), a: g(r), b: g(r) });
+
+#[derive(Form, Debug, PartialEq, Clone)]
+pub struct TagFieldNoItemsHeaderBody {
+    #[form(tag)]
+    pub level: Level,
+    #[form(header_body)]
+    pub hb: Vec<i32>,
+}
+specimen!(TagFieldNoItemsHeaderBody, |r| TagFieldNoItemsHeaderBody { level: level(r), hb: g(r) });
+
+#[derive(Form, Debug, PartialEq, Clone)]
+pub struct TagFieldNoItemsAttr {
+    #[form(tag)]
+    pub level: Level,
+    #[form(attr)]
+    pub at: i32,
+    #[form(skip)]
+    pub skipped: i32,
+}
+specimen!(TagFieldNoItemsAttr, |r| TagFieldNoItemsAttr { level: level(r), at: g(r), skipped: 0 });
+
+#[derive(Form, Debug, PartialEq, Clone)]
+pub struct TagFieldGeneric<T> {
+    #[form(tag)]
+    pub level: Level,
+    pub inner: T,
+}
+impl<T: Specimen> Specimen for TagFieldGeneric<T> {
+    fn gen(r: &mut Rng) -> Self {
+        TagFieldGeneric { level: level(r), inner: g(r) }
+    }
+}
+
+/// Tag-field structs as variant payloads and inside collections (recogniser reset between elements).
+#[derive(Form, Debug, PartialEq, Clone)]
+pub enum EnumOfTagFields {
+    T(TagFieldTuple),
+    B { inner: TagFieldBody },
+    N(TagFieldNoItems, TagFieldLabelled),
+}
+specimen!(EnumOfTagFields, |r| match r.below(3) {
+    0 => EnumOfTagFields::T(g(r)),
+    1 => EnumOfTagFields::B { inner: g(r) },
+    _ => EnumOfTagFields::N(g(r), g(r)),
+});
+
 #[derive(Form, Debug, PartialEq, Clone)]
 pub struct Kitchen {
     #[form(header_body)]
